@@ -1219,6 +1219,21 @@ macro_rules! float_algebra { ($s:expr, $T:ty, $K:expr) => {{
     if i != one { s.violation(&format!("Quaternion::identity<{}>", name), "not-(0,0,0,1)", json!({"got": [i[0].d(), i[1].d(), i[2].d(), i[3].d()]})); }
     if dflt != one { s.violation(&format!("Quaternion::default<{}>", name), "not-the-identity", json!({"got": [dflt[0].d(), dflt[1].d(), dflt[2].d(), dflt[3].d()]})); }
     if z != [tf(0.0); 4] { s.violation(&format!("Quaternion::zero<{}>", name), "not-zero", json!({"got": [z[0].d(), z[1].d(), z[2].d(), z[3].d()]})); }
+    // the zero quaternion (after seed S05i): the norm is multiplicative for ALL components, so |0| = 0, |0*q| = |q*0| = |q - q| = 0 exactly
+    // (every product and sum involved is exact), also with negative zeros in the lanes; magnitude_squared likewise
+    for (q0, _) in qs.iter().take(9) {
+        let q = mkq(q0);
+        let zero = Quaternion::<$T>::zero();
+        let nz = mkq(&[tf(-0.0), tf(0.0), tf(-0.0), tf(-0.0)]);
+        let cases: [(&str, Quaternion<$T>); 6] = [("zero()", zero), ("(-0,+0,-0,-0)", nz), ("zero() * q", zero * q), ("q * zero()", q * zero), ("q - q", q - q), ("q * 0", q * tf(0.0))];
+        for (what, v) in cases {
+            s.eval(true);
+            let inp = || json!({"q_xyzw": [q0[0].d(), q0[1].d(), q0[2].d(), q0[3].d()], "value": what});
+            if let Some((m, m2)) = s.call(&format!("Quaternion::magnitude<{}>", name), inp, || (v.magnitude(), v.magnitude_squared())) {
+                if m.d() != 0.0 || m2.d() != 0.0 { viol(s, &format!("Quaternion::magnitude<{}>", name), "norm-of-the-zero-quaternion-is-not-0", || json!({"input": inp(), "magnitude": format!("{:?}", m.d()), "magnitude_squared": format!("{:?}", m2.d())}), 0); }
+            }
+        }
+    }
 }} }
 
 macro_rules! float_apply { ($s:expr, $T:ty, $K:expr) => {{
